@@ -158,12 +158,16 @@ Definition prep_job (rerun : list N) (d : list (N * list N)) (j : sjob) : sjob :
   else j.
 Definition counts_completed (rerun : list N) (j : sjob) : bool :=
   negb (memN (s_name j) rerun) && jstate_eqb (s_state j) DONE.
+Definition counts_submitted (rerun : list N) (j : sjob) : bool :=
+  negb (memN (s_name j) rerun) && negb (jstate_eqb (s_state j) NOT_SUBMITTED).
 
-(* Cluster.prepare_for_resubmission; None = `assert self._config.is_complete` *)
+(* Cluster.prepare_for_resubmission; None = `assert self._config.is_complete`.
+   Counters come from the job table: submitted = jobs that are not rerun and not NOT_SUBMITTED,
+   completed = jobs that are not rerun and DONE. *)
 Definition prepare (c : cluster) (rerun : list N) (d : list (N * list N)) : option cluster :=
   if c_complete c then
     Some {| c_submitter := c_submitter c; c_complete := false; c_num := c_num c;
-            c_submitted := (c_num c - Z.of_nat (length rerun))%Z;
+            c_submitted := Z.of_nat (length (filter (counts_submitted rerun) (c_jobs c)));
             c_completed := Z.of_nat (length (filter (counts_completed rerun) (c_jobs c)));
             c_groups := c_groups c;
             c_jobs := map (prep_job rerun d) (c_jobs c) |}
